@@ -34,7 +34,7 @@ def generate(rng, tier):
         if m == 0:
             cases.append(sc.gen_pipeline(rng))
         elif m == 1:
-            cases.append([sc.gen_shared_equal, sc.gen_relay2, sc.gen_two_relays, sc.gen_pull_ring, sc.gen_lookahead, sc.gen_ring_mixed][(i // 10) % 6](rng))
+            cases.append([sc.gen_shared_equal, sc.gen_relay2, sc.gen_two_relays, sc.gen_pull_ring, sc.gen_lookahead, sc.gen_ring_mixed, sc.gen_relay_twice][(i // 10) % 7](rng))
         elif m < 5:
             cases.append(sc.gen_dag(rng))
         elif m < 9:
